@@ -137,7 +137,7 @@ func (s *state) step(ws []string) string {
 			keys[j] = pub
 		}
 		s.close()
-		s.fix = minerfix.New(minerfix.Opts{N: k, T: k, Self: 0, ThresholdByCount: 66, Keys: keys, ValidationBatchSize: bs})
+		s.fix = minerfix.New(minerfix.Opts{N: k, T: k, Self: 0, ThresholdByCount: 66, Keys: keys, ValidationBatchSize: bs, SelfKey: s.w.Keys["n0"]})
 		s.miners = k
 		return "ok"
 	case ws[0] == "vtickets" && len(ws) == 3:
